@@ -92,12 +92,15 @@ def r2(ctx):
     """Peeking: evaluated on a one-shot stream and on a list of five symbolic items -- what peek returns is a prefix, and
     what the iterator yields afterwards is every item, in order."""
     from ..absint import Opaque, StreamVal, HostIter
-    pk = require_func(ctx, "iterators._FeatureIterator.peek")
+    fcls = ctx.proj.cls("iterators._FeatureIterator")
+    pk = ctx.proj.method(fcls, "peek")       # wherever the class gets it from (own method or a template in the base class)
+    ctx.require(pk is not None, "anchor vanished: _FeatureIterator has no peek")
+    ctx.touch(pk)
     n_param = [p for p in pk.params if p != "self"][0]
     for label, mk in (("a one-shot generator", lambda xs: StreamVal(xs, "data")), ("a list", lambda xs: list(xs))):
         for n in (0, 2, 10):
             xs = [Opaque("x%d" % i, "Feature") for i in range(5)]
-            so = Opaque("self", "obj")
+            so = Opaque("self", "_FeatureIterator")
             so.attrs["data"] = mk(xs)
             traces = _run(ctx, pk, {n_param: n}, self_obj=so)
             ctx.ob("R2", len(traces) == 1, "peek takes one path through a given source", func=pk, sig="peek(%d) on %s: %d path(s)" % (n, label, len(traces)), nontrivial=False)
@@ -114,14 +117,16 @@ def r2(ctx):
                 left = None
             ctx.ob("R2", left == allnames, "after peeking the iterator still delivers every item, the peeked ones first, in the original order", func=pk,
                    sig="after peek(%d) on %s the source yields %s" % (n, label, left))
-    fpk = require_func(ctx, "iterators._FileIterator.peek")
+    fpk = ctx.proj.method(ctx.proj.cls("iterators._FileIterator"), "peek")
+    ctx.require(fpk is not None, "anchor vanished: _FileIterator has no peek")
+    ctx.touch(fpk)
     n_param = [p for p in fpk.params if p != "self"][0]
     calls = []
 
     def fresh(i, pos, kw, node):
         calls.append(1)
         return StreamVal([Opaque("l%d" % k, "Feature") for k in range(5)], "file pass %d" % len(calls))
-    so = Opaque("self", "obj")
+    so = Opaque("self", "_FileIterator")
     so.attrs["data"] = Opaque("path", "str")
     traces = _run(ctx, fpk, {n_param: 2}, self_obj=so, summaries={"iterators._FileIterator._custom_iter": fresh, "iterators._BaseIterator._custom_iter": fresh})
     t = traces[0]
@@ -141,8 +146,12 @@ def r3(ctx):
         for c in calls_in(f.node):
             if norm(c.func) == "self.transform":
                 sites.append((f, c))
-    ctx.ob("R3", len(sites) == 1 and sites[0][0] is it, "the transform is applied at exactly one site, in the common iteration path", func=it,
-           sig="transform called in %s" % sorted(f.qual.split(".", 1)[1] for f, _ in sites))
+    from ..util import closure
+    common = set(closure(ctx, it)) | {it}
+    outside = [(f, c) for f, c in sites if f not in common]
+    ctx.ob("R3", len(sites) >= 1 and not outside, "the transform is applied only on the common iteration path (__iter__ and what it calls); that it is applied once per "
+           "item is decided below on the evaluated path", func=it,
+           sig="transform applied on the common path only" if sites and not outside else "transform called in %s" % sorted(f.qual.split(".", 1)[1] for f, _ in (outside or sites)))
     # every other use of the transform value may only store or forward it
     for f in ctx.proj.funcs_in_module("iterators") + [ctx.proj.func("create.create_db"), ctx.proj.func("create._DBCreator.__init__")]:
         for n in ast.walk(f.node):
@@ -156,9 +165,9 @@ def r3(ctx):
             par = use._parent
             applied = False
             if isinstance(par, ast.Call) and par.func is use:
-                applied = f is not it            # called somewhere else than the one site
+                applied = f not in common        # called somewhere else than on the common path
             elif isinstance(par, ast.Call) and any(a is use for a in par.args):
-                applied = True                   # handed to map()/filter()/a helper as a positional argument
+                applied = f not in common        # handed to map()/filter()/a helper as a positional argument
             elif isinstance(par, ast.Starred):
                 applied = True
             ok = not applied
@@ -188,6 +197,43 @@ def r3(ctx):
            sig="transform rejecting x1: yields %s" % [o[0] for o in outs])
     outs = run_iter(Callback("transform", None, fn=lambda pos, kw: False))
     ctx.ob("R3", [o[0] for o in outs] == [[]], "a transform that rejects everything yields nothing", func=it, sig="transform rejecting all: yields %s" % [o[0] for o in outs], nontrivial=False)
+
+
+def r3_whole_path(ctx):
+    """__iter__ evaluated together with each iterator class's own _custom_iter (no summary in between): the transform is
+    called exactly once per item of the source."""
+    from ..absint import Opaque, Callback, StreamVal
+    it = require_func(ctx, "iterators._BaseIterator.__iter__")
+    base = ctx.proj.cls("iterators._BaseIterator")
+    n = 0
+    for c in ctx.proj.subclasses(base):
+        ci = ctx.proj.method(c, "_custom_iter")
+        if ci is None or ci.cls is base:
+            continue
+        calls = []
+
+        def tf(pos, kw):
+            calls.append(getattr(pos[0], "name", pos[0]))
+            return pos[0]
+        so = Opaque("self", c.name)
+        so.attrs.update(dict(dialect=None, transform=Callback("transform", None, fn=tf), directives=[], warnings=[], current_item=None, current_item_number=None))
+        summ = {}
+        if c.name == "_FeatureIterator":
+            so.attrs["data"] = [Opaque("x%d" % i, "Feature") for i in range(3)]
+            want = ["x0", "x1", "x2"]
+        else:
+            so.attrs["data"] = "file.gff"
+            lines = ["chr1\t.\tgene\t1\t2\t.\t+\t.\tID=%s\n" % k for k in ("a", "b", "c")]
+            summ["iterators.%s.open_function" % c.name] = lambda i, pos, kw, node: StreamVal(lines, "file")
+            summ["iterators._FileIterator.open_function"] = summ["iterators.%s.open_function" % c.name]
+            summ["feature.feature_from_line"] = lambda i, pos, kw, node: Opaque("f(%s)" % pos[0].split("ID=")[-1], "Feature")
+            want = ["f(a)", "f(b)", "f(c)"]
+        traces = _run(ctx, it, {}, self_obj=so, summaries=summ)
+        n += 1
+        ok = len(traces) == 1 and calls == want
+        ctx.ob("R3", ok, "the transform is called exactly once per item on the whole iteration path of %s (its own _custom_iter included)" % c.name, func=ci,
+               sig="%s: transform called once per item" % c.name if ok else "%s: transform called with %s for items %s" % (c.name, calls, want))
+    ctx.floor("R3", n, 2, "iterator classes evaluated end to end")
 
 
 def r4(ctx):
@@ -260,5 +306,6 @@ def check(ctx):
     r1(ctx)
     r2(ctx)
     r3(ctx)
+    r3_whole_path(ctx)
     r4(ctx)
     r5(ctx)
